@@ -31,6 +31,7 @@ func init() {
 			{Name: "section-marked-under-other-origin", File: "guidedremediation/internal/manifest/maven/pomxml.go", Old: "				o := mavenOrigin(prefix, id, mavenutil.OriginManagement)\n				updated[o] = true\n", New: "				o := mavenOrigin(prefix, id, mavenutil.OriginManagement)\n				updated[mavenutil.OriginManagement] = true\n", Rule: "D6-section-bookkeeping", Site: "writeProject"},
 			{Name: "differing-entry-overwritten", File: "guidedremediation/internal/manifest/npm/packagejson.go", Old: "			depStr = \"dependencies.\" + key\n			if res := gjson.GetBytes(manif, depStr); res.Exists() {\n				ver := res.String()\n				if ver != origVer {\n					if !alreadyMatched {\n						return fmt.Errorf(\"original dependency version does not match patch: %s %q != %q\", name, ver, origVer)\n					}\n					// dependency was already matched, so we can ignore it.\n				} else {\n", New: "			depStr = \"dependencies.\" + key\n			if res := gjson.GetBytes(manif, depStr); res.Exists() {\n				ver := res.String()\n				if ver != origVer && !alreadyMatched {\n					return fmt.Errorf(\"original dependency version does not match patch: %s %q != %q\", name, ver, origVer)\n				}\n				{\n", Rule: "D7-addressed-only", Site: "Write"},
 		},
+		Neutral: c13Neutral,
 	})
 }
 
